@@ -6,7 +6,7 @@ CONSTANTS
   Rewards <- PalZP
   Accs = {1}
   Steps = {0, 1}
-  Extras = {0, 3}
+  Extras = {0}
   MonotoneSteps = TRUE
   Objective = "reward"
   Policy = "neg"
